@@ -82,21 +82,11 @@ impl OutputFormat for TundraDraw {
                     return Err(SavingError::Only8BitCharactersSupported.into());
                 }
 
-                if (1..=6).contains(&ch) {
-                    // fake color change to represent control characters
-                    result.push(TUNDRA_COLOR_FOREGROUND);
-                    result.push(ch as u8);
-
-                    let rgb = buf.palette.get_rgb(attr.get_foreground());
-                    result.push(0);
-                    result.push(rgb.0);
-                    result.push(rgb.1);
-                    result.push(rgb.2);
-                    continue;
-                }
-
                 let mut cmd = 0;
-                let write_foreground = buf.palette.get_color(attr.get_foreground()).get_rgb() != buf.palette.get_color(cur_attr.get_foreground()).get_rgb()
+                // the characters 1..=6 are the command bytes of the format: such a cell is always written
+                // as a color change (with its own colors) to represent the control character
+                let write_foreground = (1..=6).contains(&ch)
+                    || buf.palette.get_color(attr.get_foreground()).get_rgb() != buf.palette.get_color(cur_attr.get_foreground()).get_rgb()
                     || attr.is_bold() != cur_attr.is_bold();
                 if write_foreground {
                     cmd |= TUNDRA_COLOR_FOREGROUND;
